@@ -22,6 +22,10 @@ EXCL = {
     # name: (generate?, known key)
     'elif-after-taken-group': (False, 'pp:elif-after-taken-group-evaluated'),
     'if-short-circuit-div0': (False, 'pp:if-short-circuit-division-by-zero'),
+    'if-unsigned': (False, 'pp:if-unsigned-arithmetic'),
+    'if-stacked-unary': (False, 'pp:if-stacked-unary-operators'),
+    'if-ternary-nested': (False, 'pp:if-ternary-right-associativity'),
+    'paste-operators': (False, 'pp:paste-forming-operator'),
 }
 
 
@@ -379,7 +383,7 @@ class Gen:
                 return r.choice(['M', 'N', 'C', 'x', 'foo', 'F1_', 'pre_'])
             return r.choice(['0', '1', '2', '_t', 'x'])
         x = r.random()
-        if x < 0.08:
+        if x < 0.08 and allowed('paste-operators'):
             self.f.add('paste-operators')
             a, b = r.choice([('<', '<'), ('+', '+'), ('-', '>'), ('=', '='), ('&', '&'), ('<<', '='), ('!', '=')])
             return [a, '##', b]
@@ -408,7 +412,7 @@ class Gen:
         return s
 
     # ------------------------------------------------------------------ #if expressions
-    def expr(self, depth=0):
+    def expr(self, depth=0, nodef=False):
         r = self.r
         x = r.random()
         if depth >= 3 or x < 0.25:
@@ -429,38 +433,49 @@ class Gen:
                 self.f.add('if-unsigned')
                 return r.choice(['0u', '1u', '2U', '10UL'])
             return r.choice(INTS)
-        if x < 0.42:
+        if x < 0.42 and not nodef:
             self.f.add('if-defined')
             m = r.choice(self.cfg + self.cfg + self.num + self.obj)
             return r.choice(['defined(%s)', 'defined %s', 'defined ( %s )', '!defined(%s)']) % m
         if x < 0.5:
-            return '(' + self.expr(depth + 1) + ')'
+            return '(' + self.expr(depth + 1, nodef) + ')'
         if x < 0.58:
-            return r.choice(['!', '-', '~', '+']) + self.expr_prim(depth + 1)
+            operand = self.expr_prim(depth + 1, nodef)
+            if operand.lstrip('( ')[:1] in ('!', '-', '~', '+'):
+                if not allowed('if-stacked-unary'):
+                    operand = r.choice(INTS + self.num)
+                else:
+                    self.f.add('if-stacked-unary')
+            return r.choice(['!', '-', '~', '+']) + operand
         if x < 0.64:
             self.f.add('if-ternary')
-            return '(%s ? %s : %s)' % (self.expr(depth + 1), self.expr(depth + 1), self.expr(depth + 1))
+            if r.random() < 0.3 and allowed('if-ternary-nested'):
+                self.f.add('if-ternary-nested')
+                return '(%s ? %s : %s ? %s : %s)' % tuple(self.expr(depth + 2, nodef) for _ in range(5))
+            return '(%s ? %s : %s)' % (self.expr(depth + 1, nodef), self.expr(depth + 1, nodef), self.expr(depth + 1, nodef))
         if x < 0.70:
             self.f.add('if-short-circuit')
             if r.random() < 0.5 and allowed('if-short-circuit-div0'):
                 self.f.add('if-short-circuit-div0')
-                return '(0 && (1/0))' if r.random() < 0.5 else '(%s || 1 || (1/0))' % self.expr(depth + 1)
+                return '(0 && (1/0))' if r.random() < 0.5 else '(%s || 1 || (1/0))' % self.expr(depth + 1, nodef)
+            if nodef:
+                return '(%s && %s)' % (self.expr(depth + 1, nodef), self.expr(depth + 1, nodef))
             m = r.choice(self.cfg + self.num)
             return '(defined(%s) && %s %s %s)' % (m, m, r.choice(['>', '==', '<', '>=']), r.choice(INTS[:8]))
         if x < 0.76:
             self.f.add('if-funmacro')
             f = r.choice(list(self.numfun))
-            return '%s(%s)' % (f, ', '.join(self.expr(depth + 2) for _ in range(self.numfun[f])))
+            return '%s(%s)' % (f, ', '.join(self.expr(depth + 2, True) for _ in range(self.numfun[f])))
         if x < 0.82:
             self.f.add('if-div')
-            return '(%s %s %s)' % (self.expr(depth + 1), r.choice(['/', '%']), r.choice(['1', '2', '3', '7', '(%s | 1)' % self.expr(depth + 2)]))
+            return '(%s %s %s)' % (self.expr(depth + 1, nodef), r.choice(['/', '%']), r.choice(['1', '2', '3', '7', '(%s | 1)' % self.expr(depth + 2, nodef)]))
         if x < 0.87:
-            return '(%s %s %s)' % (self.expr(depth + 1), r.choice(['<<', '>>']), r.choice(['0', '1', '2', '3', '5']))
+            return '(%s %s %s)' % (self.expr(depth + 1, nodef), r.choice(['<<', '>>']), r.choice(['0', '1', '2', '3', '5']))
         op = r.choice(['+', '-', '*', '<', '>', '<=', '>=', '==', '!=', '&', '^', '|', '&&', '||'])
-        return '%s %s %s' % (self.expr(depth + 1), op, self.expr(depth + 1))
+        return '%s %s %s' % (self.expr(depth + 1, nodef), op, self.expr(depth + 1, nodef))
 
-    def expr_prim(self, depth):
-        e = self.expr(depth)
+    def expr_prim(self, depth, nodef=False):
+        e = self.expr(depth, nodef)
         return e if e.isalnum() else '(' + e + ')'
 
     # ------------------------------------------------------------------ text
